@@ -123,6 +123,17 @@ def make_case(args):
     # ---------------- implementation
     sp = obj.spec
     impl = {}
+    if rng.random() < 0.2:
+        # the object held another spectrum when it was first asked for its parameters; its values were then overwritten in
+        # place — the integrals below are those of the contents it has now
+        real = np.array(da.values, copy=True)
+        try:
+            da.values[...] = np.flip(real, axis=da.get_axis_num("freq")) * 0.25
+            for nm in ("hs", "tm01", "tm02", "swe", "goda", "oned") + (() if oned else ("dm", "dspr", "uss")):
+                getattr(sp, nm)()
+        except Exception:
+            pass
+        da.values[...] = real
     try:
         impl["hs"] = sp.hs(tail=tail)
         impl["hrms"] = sp.hrms(tail=tail)
